@@ -28,21 +28,55 @@ import c01
 PROP = "C13"
 
 
-def gen_events(rng, prog, n):
+def gen_events(rng, prog, n, lock_rate=0.0):
     """returns list of (event description, actions, program after the event, live clone table)"""
     cur = copy.deepcopy(prog)
     clones = {}         # object name -> base function name
     out = []
     nclone = 0
+    nref = 0
     for _ in range(n):
         r = rng.random()
         prev = copy.deepcopy(cur)
         acts, desc = [], None
         fns = [x for x, d in cur["defs"].items() if d["kind"] != "var"]
         mems = [x for x, d in cur["defs"].items() if d["kind"] == "memento"]
-        if r < 0.40:
+        locked = bool(cur.get("locked"))
+        if lock_rate and rng.random() < (0.30 if locked else lock_rate):
+            # the cluster is locked / unlocked (`cluster.locked = ...`): the answers given while it is locked are excluded by the
+            # property, everything asked after the unlock is not
+            if locked:
+                cur.pop("locked")
+            else:
+                cur["locked"] = True
+            # (every live object is asked once before the lock: the code computes a version when a function is registered, the
+            #  model when it is first asked — the difference shows only in the excluded answers of a never-asked function)
+            acts = [["lock", 0]] if locked else [["versions", [x for x, d in cur["defs"].items() if d["kind"] == "memento"] + list(clones)],
+                                                 ["lock", 1]]
+            desc = ["unlock" if locked else "lock"]
+        elif locked and 0.60 <= r < 0.70:
+            continue                                  # no memento <-> plain switches while locked (registration)
+        elif r < 0.40:
             cur, lg = vprogs.edits(rng, cur, 1)
             if not lg:
+                continue
+            changed = [x for x in set(prev["defs"]) | set(cur["defs"]) if prev["defs"].get(x) != cur["defs"].get(x)]
+            if locked and any("memento" in (prev["defs"].get(x, {}).get("kind"), cur["defs"].get(x, {}).get("kind")) for x in changed):
+                # a memento function defined again, with code never seen before, while the cluster is locked: the registration
+                # is refused, the `def` statement raises, the program stays what it was
+                if len(changed) != 1 or prev["defs"][changed[0]].get("explicit") or prev["defs"][changed[0]].get("aslambda"):
+                    cur = prev
+                    continue
+                x = changed[0]
+                nref += 1
+                dnew = copy.deepcopy(prev["defs"][x])
+                dnew["const"] = 1000 + nref
+                tmp = copy.deepcopy(prev)
+                tmp["defs"][x] = dnew
+                cur = prev
+                acts = [["exec", dnew["where"], vprogs.render_def(x, dnew, tmp, "vpk"), {"refused": x, "def": dnew}]]
+                desc = ["refused-definition", x]
+                out.append((desc, acts, copy.deepcopy(cur), dict(clones), None if rng.random() < 0.5 else []))
                 continue
             acts = c01.event_actions(prev, cur)
             desc = ["edit"] + lg[-1]
@@ -134,6 +168,9 @@ def gen_events(rng, prog, n):
             live = [x for x, d in cur["defs"].items() if d["kind"] == "memento"] + list(clones)
             qn = [x for x in live if rng.random() < 0.5]
         out.append((desc, acts, copy.deepcopy(cur), dict(clones), qn))
+    if cur.get("locked"):
+        cur.pop("locked")
+        out.append((["unlock"], [["lock", 0]], copy.deepcopy(cur), dict(clones), None))
     if out:
         out[-1] = out[-1][:4] + (None,)
     return out
@@ -245,6 +282,57 @@ def directed_scenarios():
                [["edit", "var", "V1"], c01.event_actions(c1, c2), c2, {"c1": "m1"}, ["c1"]],
                [["edit", "var", "V1"], [], c2, {"c1": "m1"}, None]]
         out.append(dict(note="clone kept unused across A -> B -> A", program=c0, events=evs))
+    # the cluster lock: answers given while the cluster is locked are excluded, everything after the unlock is not; a definition
+    # refused while locked binds nothing; a wrapper made while locked has no version to freeze; locking ANOTHER cluster freezes nothing
+    def refused(pg, x, k):
+        dnew = copy.deepcopy(pg["defs"][x]); dnew["const"] = 2000 + k
+        tmp = copy.deepcopy(pg); tmp["defs"][x] = dnew
+        return [["exec", dnew["where"], vprogs.render_def(x, dnew, tmp, "vpk"), {"refused": x, "def": dnew}]]
+    for variant in ("edit-under-lock", "clone-asked-first", "wrapper-under-lock", "clone-under-lock", "other-cluster"):
+        l0 = dict(defs={"V1": dict(kind="var", where="mod", value=1), "m1": f("memento", [["V1", "bare"]]), "m2": f("memento", [["m1", "bare"]]),
+                        "m3": f("memento", [["m2", "bare"]])}, order=["V1", "m1", "m2", "m3"])
+        for d in l0["defs"].values():
+            if d["kind"] != "var":
+                d["nest"] = None
+        lk = lambda pg: dict(copy.deepcopy(pg), locked=True)
+        l1 = copy.deepcopy(l0); l1["defs"]["V1"]["value"] = 2
+        l2 = copy.deepcopy(l1); l2["defs"]["m1"]["const"] = 7
+        if variant == "edit-under-lock":
+            evs = [[["lock"], [["lock", 1]], lk(l0), {}],
+                   [["edit", "var", "V1"], c01.event_actions(l0, l1), lk(l1), {}],
+                   [["refused-definition", "m1"], refused(l1, "m1", 1), lk(l1), {}],
+                   [["unlock"], [["lock", 0]], l1, {}, ["m3"]],
+                   [["unlock"], [], l1, {}, None],
+                   [["lock"], [["lock", 1]], lk(l1), {}, []],
+                   [["refused-definition", "m2"], refused(l1, "m2", 2), lk(l1), {}, []],
+                   [["unlock"], [["lock", 0]], l1, {}, ["m3", "m1"]],
+                   [["edit", "const", "m1"], c01.event_actions(l1, l2), l2, {}]]
+        elif variant == "clone-asked-first":
+            evs = [[["create-partial", "c1", "m2"], [["clone", "c1", "m2", "partial"]], l0, {"c1": "m2"}],
+                   [["lock"], [["lock", 1]], lk(l0), {"c1": "m2"}, []],
+                   [["edit", "var", "V1"], c01.event_actions(l0, l1), lk(l1), {"c1": "m2"}, ["m2"]],
+                   [["unlock"], [["lock", 0]], l1, {"c1": "m2"}, ["c1"]],
+                   [["unlock"], [], l1, {"c1": "m2"}, None]]
+        elif variant == "clone-under-lock":
+            # F28: a clone made while the cluster is locked copies the frozen version; it must be able to say so
+            evs = [[["lock"], [["lock", 1]], lk(l0), {}]]
+            cl_ = {}
+            for k_, how in enumerate(("ctx", "partial", "ignore", "force_local"), 1):
+                cl_ = dict(cl_, **{"c%d" % k_: "m%d" % (1 + k_ % 3)})
+                evs.append([["create-" + how, "c%d" % k_, "m%d" % (1 + k_ % 3)], [["clone", "c%d" % k_, "m%d" % (1 + k_ % 3), how]], lk(l0), dict(cl_)])
+            evs += [[["edit", "var", "V1"], c01.event_actions(l0, l1), lk(l1), dict(cl_)],
+                    [["unlock"], [["lock", 0]], l1, dict(cl_), ["c1", "c3"]],
+                    [["unlock"], [], l1, dict(cl_), None]]
+        elif variant == "wrapper-under-lock":
+            evs = [[["lock"], [["lock", 1]], lk(l0), {}],
+                   [["edit", "var", "V1"], c01.event_actions(l0, l1), lk(l1), {}, []],
+                   [["create-wrapper", "c1", "m2"], [["wrapper", "c1", "m2"]], lk(l1), {"c1": "m2"}, ["c1"]],
+                   [["unlock"], [["lock", 0]], l1, {"c1": "m2"}, None]]
+        else:
+            evs = [[["lock-another-cluster"], [["lock", 1, "vq"]], l0, {}],
+                   [["edit", "var", "V1"], c01.event_actions(l0, l1), l1, {}],
+                   [["edit", "const", "m1"], c01.event_actions(l1, l2), l2, {}]]
+        out.append(dict(note="cluster lock: " + variant, program=l0, events=evs))
     # names bound to functions of other packages (watched without a rule, F27): two names of one body bound to the same foreign
     # function, one of them re-bound; and a modifier clone made before the name is re-bound
     foreign_def = lambda was: dict(kind="plain", where="mod", foreign=True, wrapped=False, const=0, setc=None, tup=None, dflt=None, kwd=None,
@@ -614,7 +702,14 @@ def scenario(prog, events, root, with_model=False):
         if not isinstance(got, dict) or "error" in got:
             fails.append(dict(clause="version-query-succeeds", event=desc, error=got))
             break
-        exp = fresh_versions(after, root, cache)
+        locked = bool(after.get("locked"))
+        exp = fresh_versions({k: v for k, v in after.items() if k != "locked"}, root, cache) if not locked else {}
+        if desc and desc[0] == "refused-definition":
+            r_ = out[idx - 1]
+            if not (isinstance(r_, dict) and r_.get("error") == "ValueError"):
+                # not part of C13's statement; without the refusal the program is no longer the one the oracle renders
+                fails.append(dict(clause="scenario-assumption:locked-cluster-refuses-registration", event=desc, event_index=ei, got=r_))
+                break
         for name, d in after["defs"].items():
             if d["kind"] != "memento":
                 continue
@@ -623,6 +718,8 @@ def scenario(prog, events, root, with_model=False):
             g, e = got.get(name), exp.get(name)
             if isinstance(g, str) and g.startswith("err:"):
                 fails.append(dict(clause="version-query-succeeds", event=desc, event_index=ei, fn=name, got=g))
+            elif locked:
+                pass                                  # excluded by the property; the model still says what is answered
             elif g != e:
                 fails.append(dict(clause="version-equals-fresh-process", event=desc, event_index=ei, fn=name, in_process=g, fresh=e))
         for cname, base in clones.items():
@@ -633,6 +730,8 @@ def scenario(prog, events, root, with_model=False):
                 continue
             if isinstance(g, str) and g.startswith("err:"):
                 fails.append(dict(clause="version-query-succeeds", event=desc, event_index=ei, fn=cname, base=base, got=g))
+            elif locked:
+                pass
             elif g != e:
                 fails.append(dict(clause="version-equals-fresh-process", event=desc, event_index=ei, fn=cname, base=base, in_process=g, fresh=e,
                                   object="clone"))
@@ -692,7 +791,9 @@ class CacheModel:
         rs = " ".join(str(r) for r in refs)
         if d["kind"] == "memento":
             e = common.hexs(d["explicit"]) if d.get("explicit") else "auto"
-            self.inst[name] = int(self.send(("dm %d %s %d %s" % (n, e, tok, rs)).strip()))
+            r_ = self.send(("dm %d %s %d %s" % (n, e, tok, rs)).strip())
+            if r_ != "refused":                       # (locked cluster: nothing is bound, no instance appears)
+                self.inst[name] = int(r_)
         elif d.get("foreign"):
             self.inst.pop(name, None)
             self.send("df %d %d" % (n, tok))          # a function of another package: no rule, the symbol is watched (F27)
@@ -721,6 +822,17 @@ class CacheModel:
         for a in acts:
             if a[0] in ("setvar", "mutate"):
                 self.define(a[2], after)
+            elif a[0] == "versions":
+                for obj in a[1]:
+                    if obj in self.inst:
+                        self.query(obj)
+            elif a[0] == "lock":
+                if len(a) < 3:                        # (locking another cluster is no event of this one)
+                    self.send("lock %d" % a[1])
+            elif a[0] == "exec" and len(a) > 3 and a[3].get("refused"):
+                tmp = copy.deepcopy(after)
+                tmp["defs"][a[3]["refused"]] = a[3]["def"]
+                self.define(a[3]["refused"], tmp)
             elif a[0] == "exec":
                 m = re.match(r"a_(\w+) = (\w+)\n$", a[2])
                 if m:
@@ -830,7 +942,7 @@ def main(chk, replay=None):
             if users:
                 prog["defs"][r.choice(users)]["refs"].append(["abs", "bare"])
                 prog["late_builtin"] = ["abs"]
-        evs = gen_events(r, prog, r.randint(2, maxev))
+        evs = gen_events(r, prog, r.randint(2, maxev), lock_rate=(0.15 if r.random() < 0.5 else 0.0))
         root = tempfile.mkdtemp(prefix="c13_", dir=chk.tmpdir())
         try:
             fails, (mism, npairs) = scenario(prog, evs, root, with_model=True)
